@@ -95,6 +95,35 @@ def _need(key, rhs_shape=None, cur=()):
     return need
 
 
+def _from_end(key, shape):
+    out = []
+    for n, e in enumerate(key):
+        I = shape[n] if n < len(shape) else None
+        if I is None:
+            out.append(e)
+        elif isinstance(e, slice):
+            a = e.start if (e.start is None or e.start >= 0) else max(e.start + I, 0)
+            b = e.stop if (e.stop is None or e.stop >= 0) else max(e.stop + I, 0)
+            out.append(slice(a, b, e.step))
+        elif isinstance(e, (list, np.ndarray)):
+            out.append([int(v) + I if int(v) < 0 else int(v) for v in e])
+        else:
+            out.append(int(e) + I if int(e) < 0 else int(e))
+    return out
+
+
+def _has_negative(key):
+    for e in key:
+        if isinstance(e, dict):
+            if "s" in e and any(v is not None and v < 0 for v in e["s"][:2]):
+                return True
+            if ("l" in e or "a" in e) and any(int(v) < 0 for v in e.get("l", e.get("a"))):
+                return True
+        elif isinstance(e, (int, np.integer)) and e < 0:
+            return True
+    return False
+
+
 def _resolve(key, shape):
     """Per-mode index arrays (for np.ix_) and which modes are kept (non-int)."""
     idx, keep = [], []
@@ -150,7 +179,10 @@ def _rand_key(rng, shape, write, grow_p=0.25, forms=("int", "int", "int", "int",
             elif c == 3:
                 key.append({"s": [None, int(rng.integers(1, I + 1)), None]})
             else:
-                if I >= 2:
+                if I >= 2 and write and rng.random() < grow_p:
+                    # a start counted from the end and a stop past the extent: the write grows the mode from that start on
+                    key.append({"s": [-int(rng.integers(1, I + 1)), int(I + rng.integers(1, 3)), None]})
+                elif I >= 2:
                     # bounds counted from the end (reads and writes)
                     key.append({"s": [[None, -1, None], [-1, None, None], [-I, -1, None], [-2, None, None]][int(rng.integers(0, 4))]})
                 else:
@@ -164,6 +196,8 @@ def _rand_key(rng, shape, write, grow_p=0.25, forms=("int", "int", "int", "int",
                 vals = [vals[j] for j in rng.permutation(len(vals))]
             if write and rng.random() < grow_p:
                 vals[-1] = int(I)
+                if len(vals) >= 2 and rng.random() < 0.4:
+                    vals[0] = vals[0] - I                                            # ... and one counted from the end in the same list
             elif rng.random() < 0.25:
                 vals = [v - I if rng.random() < 0.5 else v for v in vals]           # some entries counted from the end
             key.append({"l": vals})
@@ -253,6 +287,7 @@ def _rand_op(rng, shape, model):
         kk = [_key_elem(e) for e in key]
         rhs = "scalar" if rng.random() < 0.5 else "array"
         if rhs == "array":
+            kk = _from_end(kk, model.shape)
             need = _need(kk, None, model.shape)
             m2 = Model(model.M)
             m2.grow(need)
@@ -322,6 +357,7 @@ def _apply_model(model, op):
             op = dict(op, rhs="array", v=model.M.copy().tolist())
         if op["rhs"] == "array":
             rshape = np.asarray(op["v"]).shape
+        kk = _from_end(kk, model.shape)            # positions counted from the end refer to the extent before the write grows it
         model.grow(_need(kk, rshape, model.shape))
         kk = kk + [0] * (model.M.ndim - len(kk))
         idx, keep = _resolve(kk, model.shape)
@@ -566,7 +602,9 @@ def _exec_op(ctx, op, T, S, model):
         _cmp_state(ctx, "__setitem__", T, S, model)
     elif k == "set_region":
         key = _mk_key(op["key"])
+        shape_before = tuple(model.shape)
         _apply_model(model, op)
+        grew = tuple(model.shape) != shape_before
         if op["rhs"] == "scalar":
             for holder, X, cls in hs:
                 _do(ctx, f"{cls}.__setitem__", holder, lambda X=X: X.__setitem__(key, op["v"]))
@@ -582,7 +620,8 @@ def _exec_op(ctx, op, T, S, model):
             _cmp_state(ctx, "__setitem__", T, S, model)
             # the same right-hand-side objects are used again for the same region: the state must not move
             # (a right-hand side corrupted by the first assignment would land somewhere else)
-            if ctx.nviol == 0 or True:
+            # (not for a key with positions counted from the end that also grew the tensor: it names other positions now)
+            if not (grew and _has_negative(op["key"])):
                 _do(ctx, "tensor.__setitem__", "dense", lambda: T.__setitem__(key, dr))
                 _do(ctx, "sptensor.__setitem__", "sparse", lambda: S.__setitem__(key, sr))
                 ctx.feat(reused_rhs=True)
@@ -686,7 +725,7 @@ def _valid(op, model):
                     return False
             return True
         if k == "set_region" and op["rhs"] == "array":
-            kk = [_key_elem(e) for e in key]
+            kk = _from_end([_key_elem(e) for e in key], model.shape)
             m2 = Model(model.M)
             m2.grow(_need(kk, np.asarray(op["v"]).shape, model.shape))
             kk = kk + [0] * (m2.M.ndim - len(kk))
